@@ -156,8 +156,8 @@ func init() {
 		ID:   "C12",
 		Pkgs: []pkgRef{{"util/resolve", "deps.dev/util/resolve"}},
 		Assume: []string{
-			"partial: the two sort comparators (SortVersions for Maven/PyPI on parsable versions, sortNPMVersions incl. unparsable strings) are strict orders that are total on distinct version strings, hence the sorted list is unique; the filter loop of matchRequirement is under contract but only part of its invariants discharge (soundness/completeness across append are not claimed); latest repositioning and the non-range npm lookup are not covered",
-			"semver's Compare is used through the order laws proved under C01 (assumed here: lemma semver.Compare.*); ParseConstraint and Constraint.Match enter through assumed frames",
+			"partial: the two sort comparators (SortVersions for Maven/PyPI on parsable versions, sortNPMVersions incl. unparsable strings) are strict orders that are total on distinct version strings, hence the sorted list is unique; the filter loop of matchRequirement is under contract but only part of its invariants discharge (soundness/completeness across append are not claimed); latest repositioning is not covered; the non-range npm lookup is covered by site assertions at its returns (not the tags of versions passed over)",
+			"semver's Compare is used through the order laws proved under C01 (assumed here: lemma semver.Compare.*); the frame of semver.System.ParseConstraint (modifies) and the reads clause of (*semver.Constraint).Match are obligations of this check, decided by the static may-write / may-read analyses over the code util/resolve is built with; that Match is a deterministic function of what it reads is assumed",
 			"permutation invariance follows from uniqueness of a sorted sequence under a strict total order (standard fact about sort.Slice, not re-proved)",
 		},
 	}
